@@ -125,9 +125,26 @@ pub fn check(hist: &History, cfg: &HybCfg) -> Vec<Complaint> {
                                         && l0.resp.map(|r| r > r2).unwrap_or(true)
                                         && matches!(&l0.res, LookupRes::Hit { ver: v0, source, .. } if v0 == ver && *source == 2)
                                 });
+                            // Same attribution for clear(): a lookup of the key overlapped the clear() call and
+                            // came back with this version (from the write queue or an in-flight load), which
+                            // re-populated the memory tier with a value that clear() was discarding.
+                            let lookup_during_clear = w2.kind == WKind::Clear
+                                && hist.lookups.iter().any(|l0| {
+                                    l0.key == *key
+                                        && l0.invoke < r2
+                                        && l0.resp.map(|r| r > w2.invoke).unwrap_or(true)
+                                        && matches!(&l0.res, LookupRes::Hit { ver: v0, .. } if v0 == ver)
+                                        && !std::ptr::eq(l0, l)
+                                });
                             // A newer insert after the remove would have been reported as stale above.
                             out.push((
-                                if inflight_load { "R.removed-inflight-load" } else { "R.removed" },
+                                if inflight_load {
+                                    "R.removed-inflight-load"
+                                } else if lookup_during_clear {
+                                    "R.cleared-lookup-during-clear"
+                                } else {
+                                    "R.removed"
+                                },
                                 format!(
                                     "{}(k{}) returned v{ver} (served by {tier}) although the key was {} at t{}..t{} before the lookup started at t{}",
                                     l.kind,
